@@ -223,6 +223,29 @@ def r3_r5_relations(run, F):
                sample={"rows": got[:6]})
 
 
+def r5b_unification_leaves(run, F):
+    """Unification compares leaf types for identity: is_like and can_be_concretization_of (used by do_update_symbol for every
+    declaration, assignment and argument) may only recurse into themselves and use `==`.  The alias-aware `equals`
+    (char8 ~ u8, used by the documented array-to-view coercions) must not leak into them."""
+    allowed = {
+        "alpha::value_type::ValueType::is_like": {"alpha::value_type::ValueType::is_like"},
+        "alpha::value_type::ValueType::can_be_concretization_of": {"alpha::value_type::ValueType::can_be_concretization_of", "alpha::value_type::ValueType::is_like"},
+    }
+    for fn, ok_callees in allowed.items():
+        b = F.body(fn)
+        local = sorted(set(c for c in (hirq.callee(x) or "" for x in hirq.calls(b["hir"])) if c.startswith(("alpha::", "<alpha::")) and "PartialEq" not in c))
+        extra = [c for c in local if c not in ok_callees]
+        eqs = [n for n in walk(b["hir"]) if n.get("k") == "Binary" and n.get("op") == "Eq"]
+        run.ob("R5-UNIFICATION-LEAVES", fn.split("::")[-1], not extra and len(eqs) >= 3, F.where(b),
+               "%s compares leaves with `==` and recurses only into %s; other relations used: %s" % (fn.split("::")[-1], sorted(x.split("::")[-1] for x in ok_callees), extra))
+    eq = F.body("alpha::value_type::ValueType::equals")
+    uses_alias = any((hirq.callee(c) or "").endswith("is_alias_of") for c in hirq.calls(eq["hir"]))
+    callers = sorted(set(b["npath"] for b in F.lib.bodies.values() if "hir" in b and any(hirq.callee(c) == "alpha::value_type::ValueType::equals" for c in hirq.calls(b["hir"]))))
+    ok = all(c.split("::")[-1] in ("equals", "can_coerce_into", "can_coerce_address_into", "can_autoderef_into", "can_subautoderef_into") for c in callers)
+    run.ob("R5-UNIFICATION-LEAVES", "who uses equals", ok and uses_alias, F.where(eq),
+           "the alias-aware equality is only used by the coercion relations: callers %s" % [c.split("::")[-1] for c in callers])
+
+
 def r4_calls(run, F):
     b = F.body("alpha::analyzer::function_calls::Analyzer::use_function")
     cmps = []
@@ -428,6 +451,7 @@ def check(run):
     r1_tables(run, F)
     r2_wiring(run, F)
     r3_r5_relations(run, F)
+    r5b_unification_leaves(run, F)
     r4_calls(run, F)
     r5_unification(run, F)
     r6_codes(run, F)
